@@ -99,6 +99,24 @@ theorem pt_pow (ρ : ℕ → F) (M : ℕ) (hρ : TableInv ρ M) :
     · rw [pow_succ, pow_mul, pt_pow ρ M hρ k (2 * j + 1) _ (by omega) hb2, cnode_odd ρ j hj1,
         neg_sq, hsq]
 
+/-- the leaf point is the constant of the leaf node `j·2^k + t` (binary: `j` followed by the `k` bits of `t`) -/
+theorem pt_eq_cnode (ρ : ℕ → F) : ∀ (k j t : ℕ), t < 2 ^ k → pt ρ k j t = cnode ρ (j * 2 ^ k + t)
+  | 0, j, t, h => by
+    have : t = 0 := by simpa using h
+    subst this; simp [pt]
+  | k + 1, j, t, h => by
+    simp only [pt]
+    have e : j * 2 ^ (k + 1) = 2 * j * 2 ^ k := by rw [Nat.pow_succ]; ring
+    split
+    · rename_i ht
+      rw [pt_eq_cnode ρ k (2 * j) t ht, e]
+    · rename_i ht
+      have h2 : 2 ^ (k + 1) = 2 ^ k + 2 ^ k := by rw [Nat.pow_succ]; omega
+      rw [pt_eq_cnode ρ k (2 * j + 1) (t - 2 ^ k) (by omega), e]
+      congr 1
+      have : (2 * j + 1) * 2 ^ k = 2 * j * 2 ^ k + 2 ^ k := by ring
+      omega
+
 /-- **fwd_sem**: under the table invariant, leaf `t` of the exact network below node `(k,j)` holds
 the evaluation of the input polynomial at `pt ρ k j t`, a `2^k`-th root of `c_j`
 (node `(k,j)` computes `a mod (X^{2^k} − c_j)`). -/
@@ -152,6 +170,18 @@ theorem evalL_map_range (f : ℕ → F) (x : F) : ∀ n : ℕ,
     rw [List.range_succ, List.map_append, evalL_append, evalL_map_range f x n, sum_range_succ]
     simp [evalL]
     ring
+
+open Finset in
+/-- Horner evaluation as a sum: `evalL a x = Σ_{i < |a|} a_i x^i` -/
+theorem evalL_eq_sum (x : F) : ∀ a : List F, evalL a x = ∑ i ∈ range a.length, a.getD i 0 * x ^ i
+  | [] => by simp [evalL]
+  | a :: l => by
+    rw [List.length_cons, sum_range_succ', evalL, evalL_eq_sum x l, mul_sum]
+    simp only [List.getD_cons_succ, List.getD_cons_zero, pow_zero, mul_one, pow_succ]
+    rw [add_comm]
+    congr 1
+    apply sum_congr rfl
+    intro i _; ring
 
 open Finset in
 /-- **Evaluation is multiplicative on the negacyclic product**: if `x^n = −1` then
